@@ -137,3 +137,10 @@ Theorem C01_type_block_faithful : forall b rest F,
     (TypeProofs.flat_tb token b ++ rest) =
   DeclParser.DOk (TypeProofs.erase_tb token StInstance.tok_class t_text StInstance.tok_num StInstance.ty_name b, rest).
 Proof. exact (TypeProofs.type_block_at token StInstance.tok_class t_text StInstance.tok_num StInstance.ty_name StInstance.is_int_ty). Qed.
+
+(* A FUNCTION: name, return type (an elementary type or a name), declaration blocks (inputs with edge inputs, outputs,
+   in-outs; VAR [CONSTANT] with at least one declaration), a statement list (required), END_FUNCTION -- at any fuel that
+   covers its size, whatever follows.  Functions take part in [C01_types_faithful] as a third kind of element. *)
+Theorem C01_function_faithful : forall f rest F, LibProofs.wf_f f -> (LibProofs.size_f f + 1 <= F)%nat ->
+  StInstance.parse_function F (LibProofs.flat_f f ++ rest) = StInstance.FOk (LibProofs.erase_f f) rest.
+Proof. exact LibProofs.parse_function_spelled. Qed.
